@@ -39,6 +39,38 @@ def run(ctx):
     ctx.do(rule_no_hidden_state, "C08.history-independence")
 
 
+def walk_functions(prog):
+    """the selector walk: iterpath plus the functions of its module that it calls and that call back into the walk"""
+    from ..callgraph import EXACT, get_callgraph
+    cg = get_callgraph(prog)
+    root = prog.func(MU + "::iterpath")
+    out = [root]
+    work = [root]
+    while work:
+        f = work.pop()
+        for c in cg.calls_in(f):
+            for t in cg.resolve(c, f):
+                if t.func is not None and t.kind == EXACT and t.func.module is root.module and t.func not in out:
+                    # only helpers that are part of the recursion (they reach iterpath again)
+                    if root in cg.reachable([t.func], kinds=(EXACT,)):
+                        out.append(t.func)
+                        work.append(t.func)
+    return out
+
+
+def walk_nodes(prog):
+    for f in walk_functions(prog):
+        for n in body_walk(f.node):
+            yield f, n
+
+
+def is_walk_call(prog, f, c):
+    if not (isinstance(c, ast.Call) and isinstance(c.func, (ast.Name, ast.Attribute))):
+        return False
+    d = prog.deref(prog.resolve_expr(f.scope, c.func))
+    return d in walk_functions(prog)
+
+
 def _bool_uses(node, name):
     """uses of `name` in a boolean context inside node"""
     out = []
@@ -135,10 +167,10 @@ def rule_truthiness(ctx, rule_id="C08.truthiness"):
 def rule_positional_index(ctx, rule_id="C08.positional-index"):
     run = ctx.run
     prog = ctx.prog
-    fi = prog.func(MU + "::iterpath")
-    run.anchor(fi.id, fi.where)
+    root = prog.func(MU + "::iterpath")
+    run.anchor(root.id, root.where)
     n = 0
-    for loop in [x for x in body_walk(fi.node) if isinstance(x, ast.For)]:
+    for fi, loop in [(f, x) for f, x in walk_nodes(prog) if isinstance(x, ast.For)]:
         it = loop.iter
         # for item in <list>:  or  for i, item in enumerate(<list>)
         seq = None
@@ -148,7 +180,8 @@ def rule_positional_index(ctx, rule_id="C08.positional-index"):
             seq = it.args[0].id
         if seq is None:
             continue
-        guarded_list = any(pol and "isinstance(%s, list)" % seq in norm(t) for t, pol, _ in guard_chain(loop))
+        guarded_list = any(pol and isinstance(t, ast.Call) and call_simple_name(t) == "isinstance" and norm(t.args[0]) == seq
+                           and "list" in norm(t.args[1]) for t, pol, _ in guard_chain(loop))
         if not guarded_list:
             continue
         n += 1
@@ -169,7 +202,7 @@ def rule_positional_index(ctx, rule_id="C08.positional-index"):
             run.check(ok, rule_id, c, "list steps are not derived from the element position", file=fi.module.relpath,
                       line=loop.lineno, function=fi.qualname, expected="enumerate()/counter", found=short(loop.iter))
     if n == 0:
-        raise AnalysisError("iterpath: loop over list elements not found")
+        raise AnalysisError("selector walk: loop over list elements not found")
 
 
 def rule_every_construction(ctx):
@@ -337,7 +370,7 @@ def rule_syntax_agreement(ctx, rule_id="C08.syntax-agreement", language_only=Fal
               "path steps are not joined with the separator of the selector syntax", file=ee.module.relpath,
               line=ee.node.lineno, function=ee.qualname, expected="'.'", found=sep)
     # list step format
-    fmts = [c.func.value.value for c in body_walk(fi.node) if isinstance(c, ast.Call) and isinstance(c.func, ast.Attribute)
+    fmts = [c.func.value.value for _f, c in walk_nodes(prog) if isinstance(c, ast.Call) and isinstance(c.func, ast.Attribute)
             and c.func.attr == "format" and isinstance(c.func.value, ast.Constant) and isinstance(c.func.value.value, str)]
     ok = fmts == ["[{0}]"] or fmts == ["[{}]"]
     run.check(ok and "[" in lits and "]" in lits, R, key(fi.module.relpath, fi.qualname, "list-step-format"),
@@ -355,10 +388,10 @@ def rule_syntax_agreement(ctx, rule_id="C08.syntax-agreement", language_only=Fal
     run.check(ok, R, key(fi.module.relpath, fi.qualname, "name-step-is-key"), "name steps are not the mapping keys",
               file=fi.module.relpath, line=fi.node.lineno, function=fi.qualname, expected="path.append(<key>)", found="absent")
     # recursion into dicts and into dict elements of lists; every append has its pop
-    appends = sum(1 for c in body_walk(fi.node) if isinstance(c, ast.Call) and isinstance(c.func, ast.Attribute) and c.func.attr == "append")
-    pops = sum(1 for c in body_walk(fi.node) if isinstance(c, ast.Call) and isinstance(c.func, ast.Attribute) and c.func.attr == "pop")
-    rec = sum(1 for c in body_walk(fi.node) if isinstance(c, ast.Call) and call_simple_name(c) == "iterpath")
-    yields = sum(1 for c in body_walk(fi.node) if isinstance(c, ast.Yield))
+    appends = sum(1 for _f, c in walk_nodes(prog) if isinstance(c, ast.Call) and isinstance(c.func, ast.Attribute) and c.func.attr == "append")
+    pops = sum(1 for _f, c in walk_nodes(prog) if isinstance(c, ast.Call) and isinstance(c.func, ast.Attribute) and c.func.attr == "pop")
+    rec = sum(1 for f_, c in walk_nodes(prog) if is_walk_call(prog, f_, c))
+    yields = sum(1 for _f, c in walk_nodes(prog) if isinstance(c, ast.Yield))
     run.check(appends == pops and rec >= 2 and yields >= 4, R, key(fi.module.relpath, fi.qualname, "walk-shape"),
               "the walk no longer descends into nested mappings and list elements symmetrically", file=fi.module.relpath,
               line=fi.node.lineno, function=fi.qualname, expected="append/pop balanced, recursion into dict and list-of-dict, 4 yields",
@@ -404,8 +437,9 @@ def rule_reject(ctx):
 
 def rule_descends(ctx, rule_id="C08.descends-into-objects"):
     """Embedded objects (external references, kill chain phases, extensions, granular markings themselves) are stored as
-    _STIXBase instances -- mappings, but not dicts.  The walk must descend into every mapping value and every mapping
-    element of a list, or no selector can address a property inside them."""
+    _STIXBase instances -- mappings, but not dicts.  The walk must descend into every mapping value, every element of a
+    list -- whatever it is: a mapping or again a list -- and treat tuples like lists, or no selector can address what is
+    inside them."""
     import json as _json
     import os as _os
     run = ctx.run
@@ -415,19 +449,15 @@ def rule_descends(ctx, rule_id="C08.descends-into-objects"):
     ref = _json.load(open(_os.path.join(_os.path.dirname(_os.path.dirname(_os.path.dirname(__file__))), "spec", "selectors.json")))
     ok_ext = set(ref["mapping_types"])
     n = 0
-    for c in body_walk(fi.node):
-        if not (isinstance(c, ast.Call) and call_simple_name(c) == "iterpath" and c.args and isinstance(c.args[0], ast.Name)):
-            continue
-        d = prog.deref(prog.resolve_expr(fi.scope, c.func))
-        if d is not fi:
-            continue
+    descents = [(f_, c) for f_, c in walk_nodes(prog) if is_walk_call(prog, f_, c) and c.args and isinstance(c.args[0], ast.Name)]
+    for f_, c in descents:
         n += 1
         arg = c.args[0].id
         tests = [t for t, pol, _ in guard_chain(c) if pol and isinstance(t, ast.Call) and call_simple_name(t) == "isinstance"
                  and len(t.args) == 2 and norm(t.args[0]) == arg]
-        ck = key(fi.module.relpath, fi.qualname, "descent-accepts-mappings:%d" % n)
+        ck = key(f_.module.relpath, f_.qualname, "descent-accepts-mappings:%d" % n)
         if not tests:
-            # an unguarded descent accepts everything that has .items(): fine for this rule
+            # an unguarded descent hands the value to a dispatcher that tests it itself: fine for this clause
             run.ok(rule_id, ck)
             continue
         T = tests[-1].args[1]
@@ -435,21 +465,51 @@ def rule_descends(ctx, rule_id="C08.descends-into-objects"):
         accepted = False
         names = []
         for e in elts:
-            dd = prog.deref(prog.resolve_expr(fi.scope, e))
+            dd = prog.deref(prog.resolve_expr(f_.scope, e))
             dotted_ = getattr(dd, "dotted", None)
             names.append(dotted_ or norm(e))
             if dotted_ in ok_ext or (dotted_ or "").endswith(".Mapping"):
                 accepted = True
             elif dd is not None and dd in base.mro:
                 accepted = True
+            elif norm(e) in ("list", "tuple"):
+                accepted = True     # the list branch of a dispatcher, judged below
         run.check(accepted, rule_id, ck,
                   "the selector walk descends only into %s: embedded objects and extensions are stored as _STIXBase mappings, "
                   "not dicts, so no selector can address a property inside them (e.g. external_references.[0].source_name, "
-                  "extensions.<name>.<property>)" % "/".join(names), file=fi.module.relpath, line=tests[-1].lineno,
-                  function=fi.qualname, expected="isinstance(<value>, collections.abc.Mapping) (or a test _STIXBase satisfies)",
+                  "extensions.<name>.<property>)" % "/".join(names), file=f_.module.relpath, line=tests[-1].lineno,
+                  function=f_.qualname, expected="isinstance(<value>, collections.abc.Mapping) (or a test _STIXBase satisfies)",
                   found=short(tests[-1]))
     if n < 2:
-        raise AnalysisError("iterpath: fewer than two recursive descents found (mapping value, mapping element of a list)")
+        raise AnalysisError("selector walk: fewer than two recursive descents found (mapping value, element of a list)")
+    # elements of a list: whatever the element is -- a mapping OR again a list -- the walk goes on below it; and a tuple is a list
+    list_loops = []
+    for f_, lp in [(f, x) for f, x in walk_nodes(prog) if isinstance(x, ast.For)]:
+        seq = lp.iter.args[0] if isinstance(lp.iter, ast.Call) and call_simple_name(lp.iter) == "enumerate" and lp.iter.args else lp.iter
+        if not isinstance(seq, ast.Name):
+            continue
+        lt = [t for t, pol, _ in guard_chain(lp) if pol and isinstance(t, ast.Call) and call_simple_name(t) == "isinstance"
+              and norm(t.args[0]) == seq.id and "list" in norm(t.args[1])]
+        if lt:
+            list_loops.append((f_, lp, lt[-1]))
+    if not list_loops:
+        raise AnalysisError("selector walk: loop over the elements of a list not found")
+    for f_, lp, lt in list_loops:
+        elem = lp.target.elts[-1] if isinstance(lp.target, ast.Tuple) else lp.target
+        inner = [c for s_ in lp.body for c in walk_no_nested(s_) if is_walk_call(prog, f_, c) and c.args and norm(c.args[0]) == norm(elem)]
+        mapping_only = bool(inner) and all(any(pol and isinstance(t, ast.Call) and call_simple_name(t) == "isinstance"
+                                               and "list" not in norm(t.args[1]) for t, pol, _ in guard_chain(c, stop=lp)) for c in inner)
+        run.check(bool(inner) and not mapping_only, rule_id, key(f_.module.relpath, f_.qualname, "list-elements-walked-whatever-they-are"),
+                  "below an element of a list the walk goes on only when the element is a mapping: a list nested directly in a "
+                  "list ({'matrix': [[1, 2], [3, 4]]} in an extension, a dictionary value, a custom property) cannot be addressed "
+                  "-- 'matrix.[0].[1]' is refused although it exists", file=f_.module.relpath, line=lp.lineno, function=f_.qualname,
+                  expected="descend into every element through the same dispatcher (mapping or list)",
+                  found=[short(c) for c in inner] or "no descent")
+        run.check("tuple" in norm(lt.args[1]), rule_id, key(f_.module.relpath, f_.qualname, "tuples-walked-like-lists"),
+                  "only `list` values are walked element by element: the elements of a tuple (a custom property given as a tuple "
+                  "through the Python API) cannot be addressed, although the same selector is accepted after a serialise / parse "
+                  "round trip", file=f_.module.relpath, line=lt.lineno, function=f_.qualname,
+                  expected="isinstance(value, (list, tuple))", found=short(lt))
     # every mapping handed to the walk is walked: no path from entry to exit avoids the loop over its items (an identity /
     # "already seen" guard that returns early skips a mapping object that is reachable at a second path), and the guards of
     # the descents are type tests only
@@ -464,9 +524,8 @@ def rule_descends(ctx, rule_id="C08.descends-into-objects"):
               "keys) is walked at the first place only, selectors into the second are refused", file=fi.module.relpath,
               line=fi.node.lineno, function=fi.qualname, expected="for key, value in sorted(obj.items()) on every path",
               found="bypass", path=g.describe_path(pathw))
-    for c in body_walk(fi.node):
-        if isinstance(c, ast.Call) and call_simple_name(c) == "iterpath" and prog.deref(prog.resolve_expr(fi.scope, c.func)) is fi:
-            other = [t for t, pol, _ in guard_chain(c) if not (isinstance(t, ast.Call) and call_simple_name(t) == "isinstance")]
-            run.check(not other, rule_id, key(fi.module.relpath, fi.qualname, "descent-guarded-by-type-only:%s" % short(c, 40)),
-                      "a descent of the selector walk depends on something other than the type of the value", file=fi.module.relpath,
-                      line=c.lineno, function=fi.qualname, expected="isinstance tests only", found=[short(t) for t in other])
+    for f_, c in [(f, x) for f, x in walk_nodes(prog) if is_walk_call(prog, f, x)]:
+        other = [t for t, pol, _ in guard_chain(c) if not (isinstance(t, ast.Call) and call_simple_name(t) == "isinstance")]
+        run.check(not other, rule_id, key(f_.module.relpath, f_.qualname, "descent-guarded-by-type-only:%s" % short(c, 40)),
+                  "a descent of the selector walk depends on something other than the type of the value", file=f_.module.relpath,
+                  line=c.lineno, function=f_.qualname, expected="isinstance tests only", found=[short(t) for t in other])
